@@ -29,53 +29,12 @@ def _opnd(a):
     s, e = normalize(B, s, e)
     return B, s, e, m, ndigits(B, s)
 
-def kf_sqrt(op, args):
-    """Context::sqrt: (a) the significand is scaled to 2p - (digits&1) + (exp&1) digits; for an even
-    digit count and an odd exponent that is 2p+1 digits, the root has p+1 digits and is rounded a
-    second time by repr_round (double rounding, wrong nearest results);
-    (b) operands longer than the scaled length: the digits below the scaling position are split off
-    and the result is flagged Exact when the integer remainder is 0 even if they are non-zero."""
-    import math
-    p = _p(op, args)
-    B, s, e, m, d = _opnd(args[0])
-    if s <= 0 or p == 0:
-        return False
-    if d % 2 == 0 and e % 2 == 1:
-        return True
-    shift = 2 * p - (d & 1) + (e & 1) - d
-    if shift >= 0:
-        return False
-    hi, lo = divmod(s, B ** (-shift))
-    r = math.isqrt(hi)
-    return lo != 0 and r * r == hi
-
-def kf_add_far_base2(op, args):
-    """far-apart addition in base 2, mode HalfAway, same signs, large operand shorter than p digits:
-    the small operand is replaced by +-1 with low_prec = (rnd_precision - ldigits) + 1 digits; after
-    the large operand has been padded to rnd_precision digits exactly one digit is left, i.e. +-1/2 in
-    base 2 - an exact tie, which HalfAway rounds away from zero."""
-    p = _p(op, args)
-    B, s1, e1, m, d1 = _opnd(args[0])
-    B2, s2, e2, m2, d2 = _opnd(args[1])
-    if B != 2 or m != "H" or p == 0 or s1 == 0 or s2 == 0 or e1 == e2:
-        return False
-    if op.endswith("sub"):
-        s2 = -s2
-    if e1 < e2:
-        s1, e1, d1, s2, e2, d2 = s2, e2, d2, s1, e1, d1
-    if (s1 < 0) != (s2 < 0):
-        return False
-    ediff = e1 - e2
-    # far branch taken with the exact digit count or with digits_ub = digits + 1
-    far = any(r + 1 < ediff and r + 1 + p < d1 + ediff for r in (d2, d2 + 1))
-    return far and d1 < p
-
 def kf_long_operand(op, args):
     """Context methods on operands longer than the working length (outside `operands that fit p`):
     mul/sqr/cubic pre-shrink operands longer than 2p (3p) digits and div pre-shrinks a dividend longer
     than rhs.digits + p with the rounding mode of the context (double rounding, lost Inexact flag);
-    sub with a zero lhs rounds before negating; add/sub of operands longer than p can cancel more
-    digits than the single guard digit of repr_round_sum."""
+    add/sub of operands longer than p can cancel more digits than the single guard digit of
+    repr_round_sum."""
     p = _p(op, args)
     if p == 0:
         return False
@@ -287,8 +246,8 @@ FRONTIER = ["utils::shl_digits / shr_digits per-base fast paths (modelled as *B^
 EXPLANATION = ("Lean theorems over Rat for every base >= 2, precision >= 1 and mode: repr_round satisfies the rounding contract; "
                "mul/sqr/cubic/with_precision follow from it; div via the quotient/remainder identity and round_ratio; add/sub: the model "
                "equals repr_round(exact sum) whenever the alignment keeps all digits, the other alignments are covered by the "
-               "correspondence and the executable contract check beside every model result; sqrt for the repaired scaling. Theorems "
-               "about the code as it is carry the hypotheses that exclude the recorded defects, with counterexample theorems.")
+               "correspondence and the executable contract check beside every model result. Theorems about Context::mul/sqr/cubic as "
+               "they are carry the hypothesis `digits <= 2p (3p)` that excludes the recorded pre-shrink finding, with a counterexample.")
 ASSUMPTIONS = ["f32 log2 estimates satisfy their enclosure hypotheses (checked on every driven operand)",
                "IBig/UBig kernels (mul, div_rem, pow, sqrt_rem, shifts) at their specification (C01/C02/C12)"]
 LEVEL_TEXT = ("Machine-checked Lean 4 theorems (all bases, precisions, modes, operands) that rounding to precision and the operations "
@@ -298,7 +257,9 @@ LEVEL_TEXT = ("Machine-checked Lean 4 theorems (all bases, precisions, modes, op
               "partially proved (see evidence); the model is tied to /repo by differential execution over operands built from every "
               "branch condition, all call forms.")
 LEVEL_NOTE = ("Trusted: Lean kernel; axioms propext/Classical.choice/Quot.sound; correspondence harness + generators (sampling) for the "
-              "hand-written model; integer kernels at their specifications. Defects of the code found here (sqrt double rounding and "
-              "Exact flag, base-2 far-apart addition tie, pre-shrink double rounding of over-long operands, sub from zero) are recorded "
-              "in known_findings.jsonl with proposed fixes; full-strength theorems are about the repaired functions.")
+              "hand-written model; integer kernels at their specifications. Defects found here and repaired in /repo (sqrt double "
+              "rounding and Exact flag 92fc29e, base-2 far-apart addition tie 0d97e26, sub from zero d197d6e) stay as regression "
+              "cases in corpus/C03; the remaining ones (pre-shrink double rounding in mul/sqr/cubic/div and deep cancellation in "
+              "add/sub, all only for Reprs longer than the working length, i.e. outside `operands that fit p`) are recorded in "
+              "known_findings.jsonl.")
 TECHNIQUE = "Lean 4 proofs over a mirrored model + executable rational contract check + differential correspondence"
